@@ -1,11 +1,11 @@
 """Per-property configuration of the checks (which generator, which kernels, which theorem modules)."""
 
 TRUSTED_BASE = [
-    "Lean 4.33 kernel; axioms allowed in theorems: propext, Classical.choice, Quot.sound (audited on every run by lean/Audit/Main.lean)",
+    "Lean 4.33 kernel (leanchecker re-checks the compiled proofs in the thorough tier); axioms allowed in theorems: propext, Classical.choice, Quot.sound (audited on every run by lean/Audit/Main.lean); decide +kernel (kernel evaluation, no axiom) for table facts and certificates",
     "no sorry/admit/axiom/native_decide/bv_decide/implemented_by in proof sources (source scan on every run)",
-    "Go->Lean translator tools/go2lean and lean/D128/Go/Prelude.lean (semantics of fixed-width ints, shifts, math/bits, panics); validated by kernel-level and API-level correspondence on every run",
-    "lean/D128/Spec/*.lean states what the properties say (hand-written, executable, independent of the generated model)",
-    "runtime not modelled: Go compiler/runtime/memory model, math/big, fmt verb and flag plumbing, encoding/json, unsafe.String; 64-bit int",
+    "Go->Lean translator tools/go2lean and the hand-written semantics it targets: lean/D128/Go/Prelude.lean (fixed-width ints, shifts, math/bits, panics, byte slices as values with cap = len), Float.lean (float64/float32 as IEEE bit patterns; characterised in Proofs/FloatSpec), Big.lean and BigFloat.lean (math/big Int/Rat/Float by the documented meaning of each method - math/big is specified, not verified); validated by kernel-level and API-level correspondence on every run (exact token equality of implementation and regenerated model)",
+    "lean/D128/Spec/*.lean states what the properties say (hand-written, executable, independent of the generated model); characterised declaratively in Props/SpecMeaning, Proofs/SpecRound*, Props/C16 (oracle soundness), Props/C17Oracle, Props/C18Oracle",
+    "runtime not modelled: Go compiler/runtime/memory model and scheduler, math/big internals, how package fmt fills a fmt.State / fmt.ScanState, encoding/json's own scanner, unsafe.String over a private buffer; 64-bit int; strings shorter than 2^57 bytes",
 ]
 
 Q = 'quick'
